@@ -63,6 +63,17 @@ func fieldOfSrc(src string) (string, string) {
 }
 
 func runC05(w *World, r *Report) {
+	r.Rule("owns-memory", "a decoded value keeps no reference into the input it was decoded from (the C12 may-alias rule): it still equals what was decoded when the input buffer is reused", 60)
+	{
+		r2 := NewReport(r.Prop, r.Tier)
+		runC12(w, r2)
+		for _, o := range r2.Obs {
+			if o.Rule == "noalias" {
+				o.Rule = "owns-memory"
+				r.Add(o)
+			}
+		}
+	}
 	r.Rule("reject", "every error exit of a decoder is behind a short input, a failed child or an unknown code, or is a reviewed rejection by value (spec/rejections.json)", 20)
 	rejectRule(w, r, "reject", func(pkg string) bool { return pkg == "openflow13" || pkg == "common" })
 	r.Rule("selfdecode", "a dispatcher returns only values its own decoder filled from the input", 20)
@@ -1391,6 +1402,14 @@ func exhaustRule(w *World, r *Report, dfi *FuncInfo) {
 				slack += c
 			}
 		}
+		// `end - n >= c` / `end - n > c`: the small side is the constant itself
+		if c, ok := constOf(small); ok && c > 0 {
+			if b, ok := unparen(big).(*ast.BinaryExpr); ok && b.Op == token.SUB {
+				if _, isC := constOf(b.Y); !isC {
+					slack += c
+				}
+			}
+		}
 		if !strict {
 			slack-- // n+c <= end  ⇔  n+c-1 < end
 		}
@@ -1416,6 +1435,15 @@ func exhaustRule(w *World, r *Report, dfi *FuncInfo) {
 						if okAll && lb > m && lb < 1<<40 && !declaredSizeCanWrap(et) {
 							m = lb
 						}
+					}
+				}
+			}
+			// reviewed minimum sizes the size terms do not give (the combinations of parts are constrained by
+			// the format, not by the Go types)
+			if sig, ok := ch.Type().(*types.Signature); ok && sig.Recv() != nil {
+				if ck := w.KindOfType(sig.Recv().Type()); ck != nil {
+					if rm, ok := reviewedMinElem[ck.Name]; ok && rm > m {
+						m = rm
 					}
 				}
 			}
@@ -1814,4 +1842,13 @@ func stmtsAfter(root *ast.BlockStmt, target ast.Stmt) []ast.Stmt {
 		return true
 	})
 	return out
+}
+
+// reviewedMinElem: the smallest element of a kind that the format allows, where the size term's lower
+// bound is weaker. NXLearnSpec (OVS nicira-ext.h, NXAST_LEARN flow_mod_spec): a 2-byte header followed by
+// a source (a 6-byte field reference, or 2*ceil(n_bits/16) >= 2 bytes of immediate data) and a destination
+// (a 6-byte field reference; none only for NX_LEARN_DST_OUTPUT, whose source must be a field): 8 bytes at
+// least. A header of zero ends the list, which is why the decoder stops when fewer than 8 bytes remain.
+var reviewedMinElem = map[string]int64{
+	"openflow13.NXLearnSpec": 8,
 }
